@@ -18,7 +18,7 @@ fn main() {
         let n: usize = n.parse().unwrap();
         let mut g = Graph::default();
         let nodes: Vec<_> = (0..n)
-            .map(|i| g.add_node(Pinned { name: format!("p{i}"), source: source::Pinned::Member(source::member::Pinned) }))
+            .map(|i| g.add_node(Pinned { name: format!("p{i}"), source: "member".parse::<source::Pinned>().unwrap() }))
             .collect();
         for e in es.split(',').filter(|s| !s.is_empty()) {
             let (ab, k) = e.split_once(':').unwrap();
